@@ -67,6 +67,39 @@ Proof.
     destruct (j_fin sc s J Hne) as (H1 & _). contradiction.
 Qed.
 
+Lemma close_next_lvl : forall d, lvl (close_next sc d) <= 2.
+Proof. intros d. unfold close_next. destruct (sc_kind sc); try destruct (d_res d); simpl; lia. Qed.
+
+Lemma close_next_nw : forall d, close_next sc d <> SWaiting.
+Proof. intros d. unfold close_next. destruct (sc_kind sc); try destruct (d_res d); discriminate. Qed.
+
+Lemma close_next_closed_res : forall d,
+  (sc_kind sc = KCoop \/ d_res d = true) -> close_next sc d = SClosed -> d_res d = true.
+Proof.
+  intros d H. unfold close_next. destruct (sc_kind sc) eqn:Ek.
+  - discriminate.
+  - destruct H; [discriminate|auto].
+  - destruct H; [discriminate|auto].
+  - destruct (d_res d); [auto|discriminate].
+Qed.
+
+Lemma forallb_false : forall A (f : A -> bool) l, forallb f l = false ->
+  exists x, In x l /\ f x = false.
+Proof.
+  induction l as [|a l IH]; simpl; intros H; [discriminate|].
+  destruct (f a) eqn:E.
+  - destruct (IH H) as (x & Hin & Hx). exists x. auto.
+  - exists a. auto.
+Qed.
+
+Lemma no_contracts_false : forall d, no_contracts sc d = false ->
+  exists r p, In r (sc_resolvers sc) /\ d_con d (r_key r) = Some p.
+Proof.
+  intros d H. unfold no_contracts in H. apply forallb_false in H.
+  destruct H as (r & Hin & Hr). exists r.
+  destruct (d_con d (r_key r)) as [p|]; [|discriminate]. exists p. auto.
+Qed.
+
 (* an arbitrator step that leaves contracts, resolver goroutines, c.state and
    the fin thread alone *)
 Lemma pinv_pc : forall s d' m' o',
@@ -135,12 +168,49 @@ Ltac triv :=
 Ltac pq J I Epc :=
   eapply (pinv_pc _ _ _ _ J I);
   [ rewrite Epc; discriminate
-  | reflexivity | reflexivity | reflexivity | reflexivity | reflexivity
+  | reflexivity | reflexivity | reflexivity
+  | first [reflexivity | symmetry; assumption] | reflexivity
   | triv | triv | triv
   | triv | triv | triv | triv | triv | triv | triv | triv | triv | triv | triv | triv
-  | triv | triv | triv | triv ].
+  | triv | triv | triv | triv ];
+  unfold set_pc; simpl;
+  try match goal with E : m_state (mm _) = _ |- _ => rewrite E end.
 
 Ltac rem := match goal with |- ?g => idtac "REM" g end.
+
+Ltac old_ud Qud :=
+  let H := fresh in
+  intros H; destruct (Qud H) as [?|[?|?]]; [left; assumption | discriminate | discriminate].
+
+Ltac lnch Epc :=
+  unfold launched; simpl; intros [[? ?]|[? ?]];
+  [ left; left; split; [assumption | rewrite Epc; intros; discriminate] | discriminate ].
+
+Ltac old_cd Qcd :=
+  let H := fresh in
+  intros H; destruct (Qcd H) as [?|[? ?]]; [left; assumption | discriminate].
+
+Ltac fin Epc Qud Qcd :=
+  try solve
+    [ triv
+    | intros; right; eexists; reflexivity
+    | old_ud Qud
+    | old_cd Qcd
+    | lnch Epc
+    | unfold launched; simpl; intros [[? ?]|[? ?]]; discriminate
+    | intros; auto
+    | intros; left; auto
+    | intros; left; discriminate
+    | intros; match goal with E : sc_kind sc = _ |- _ => rewrite E end; auto
+    | let A := fresh in let B := fresh in
+      intros A B; simpl in B; try discriminate;
+      match goal with Q : d_closed _ = true -> early _ = true -> _ |- _ =>
+        specialize (Q A B); first [discriminate | assumption] end
+    | let H := fresh in
+      intros ? ? H; inversion H; subst; simpl;
+      first [lia | discriminate
+            | match goal with |- context [close_next sc ?d] =>
+                pose proof (close_next_lvl d); lia end] ].
 
 Lemma pinv_main : forall s, Inv2 sc s -> PInv s -> PInv (main_step sc s).
 Proof.
@@ -155,17 +225,94 @@ Proof.
        pose proof (q_bc s I) as Qbc; pose proof (q_commit s I) as Qcommit;
        pose proof (q_commit_late s I) as Qcl; pose proof (q_clres s I) as Qclres;
        pose proof (q_clres2 s I) as Qclres2; pose proof (q_wait s I) as Qwait;
-       rewrite Epc in *; simpl in Qtrig, Qearly.
+       rewrite Epc in Qcd, Qud, Qtrig, Qmclose, Qscb, Qnoidle, Qmce, Qearly, Qbc, Qcommit,
+                      Qcl, Qclres2, Qwait;
+       simpl in Qtrig, Qearly.
   - (* MIdle *)
     destruct (negb (d_closed (dk s)) && negb (m_closedeliv (mm s)) &&
               (negb (sc_userfc sc) || d_bcast (dk s))) eqn:E1.
-    { destruct (sc_kind sc) eqn:Ek; pq J I Epc. all: rem. all: admit. }
-    admit.
+    { assert (Hncl : d_closed (dk s) = false).
+      { destruct (d_closed (dk s)); [discriminate|reflexivity]. }
+      assert (Hst : m_state (mm s) = SDefault \/ m_state (mm s) = SCB).
+      { destruct (Qnoidle eq_refl) as [H|[H|H]]; auto.
+        rewrite H in Qlate. specialize (Qlate eq_refl). congruence. }
+      destruct (sc_kind sc) eqn:Ek; pq J I Epc; fin Epc Qud Qcd. }
+    destruct (sc_userfc sc && negb (m_userdone (mm s)) && negb (d_closed (dk s))) eqn:E2.
+    { assert (Hncl : d_closed (dk s) = false).
+      { destruct (d_closed (dk s)); [|reflexivity]. rewrite andb_false_r in E2. discriminate. }
+      destruct (m_state (mm s)) eqn:Ems; pq J I Epc; fin Epc Qud Qcd.
+      all: try (intros; congruence). }
+    destruct (m_sigs (mm s)) eqn:Es; [exact I|].
+    pq J I Epc; fin Epc Qud Qcd.
+  - (* MClose *)
+    destruct i as [|[|i]].
+    + pq J I Epc; fin Epc Qud Qcd. all: try (intros; apply (Qmce _ eq_refl)).
+    + pq J I Epc; fin Epc Qud Qcd.
+      all: try (intros; apply (Qmclose _ eq_refl)).
+      all: try (intros; apply (Qmce _ eq_refl)).
+    + pq J I Epc; fin Epc Qud Qcd. all: try (intros; apply (Qmclose _ eq_refl)).
+  - (* MStep *)
+    destruct (m_state (mm s)) eqn:Ems.
+    + (* Default *)
+      destruct t.
+      * destruct (d_cset (dk s) && sc_cs_acts sc) eqn:Ec.
+        -- pq J I Epc; fin Epc Qud Qcd.
+        -- pq J I Epc; fin Epc Qud Qcd.
+      * pq J I Epc; fin Epc Qud Qcd.
+      * pq J I Epc; fin Epc Qud Qcd.
+        all: try (intros [t0 [H|H]]; [discriminate|]; inversion H as [[H1]];
+                  pose proof (close_next_lvl (dk s)) as L; rewrite H1 in L; simpl in L; lia).
+        all: try (intros t0 H; inversion H as [[H1]];
+                  apply (close_next_closed_res _ (Qclosed (Qtrig eq_refl)) H1)).
+        all: try (unfold launched; simpl; intros [[H _]|[t0 H]]; [discriminate|];
+                  inversion H as [[H1]]; exfalso; eapply close_next_nw; eauto).
+    + (* Broadcast *)
+      destruct t.
+      * pq J I Epc; fin Epc Qud Qcd.
+      * pq J I Epc; fin Epc Qud Qcd.
+      * pq J I Epc; fin Epc Qud Qcd.
+        all: try (intros [t0 [H|H]]; [discriminate|]; inversion H as [[H1]];
+                  pose proof (close_next_lvl (dk s)) as L; rewrite H1 in L; simpl in L; lia).
+        all: try (intros t0 H; inversion H as [[H1]];
+                  apply (close_next_closed_res _ (Qclosed (Qtrig eq_refl)) H1)).
+        all: try (unfold launched; simpl; intros [[H _]|[t0 H]]; [discriminate|];
+                  inversion H as [[H1]]; exfalso; eapply close_next_nw; eauto).
+    + (* CB *)
+      destruct t.
+      * pq J I Epc; fin Epc Qud Qcd.
+      * pq J I Epc; fin Epc Qud Qcd.
+      * pq J I Epc; fin Epc Qud Qcd.
+        all: try (intros [t0 [H|H]]; [discriminate|]; inversion H as [[H1]];
+                  pose proof (close_next_lvl (dk s)) as L; rewrite H1 in L; simpl in L; lia).
+        all: try (intros t0 H; inversion H as [[H1]];
+                  apply (close_next_closed_res _ (Qclosed (Qtrig eq_refl)) H1)).
+        all: try (unfold launched; simpl; intros [[H _]|[t0 H]]; [discriminate|];
+                  inversion H as [[H1]]; exfalso; eapply close_next_nw; eauto).
+    + (* Closed *)
+      destruct (negb (d_res (dk s))) eqn:Er.
+      { exfalso. rewrite (Qclres eq_refl Hnf) in Er. discriminate. }
+      destruct (sc_empty sc) eqn:Ee.
+      { pq J I Epc; fin Epc Qud Qcd. }
+      pq J I Epc; fin Epc Qud Qcd.
+    + (* Waiting *)
+      destruct (no_contracts sc (dk s)) eqn:En.
+      { pq J I Epc; fin Epc Qud Qcd.
+        intros _. right. apply (no_contracts_none sc s J En). }
+      destruct r.
+      * admit.
+      * pq J I Epc; fin Epc Qud Qcd.
+        intros _ _ _. destruct (no_contracts_false _ En) as (r0 & p0 & _ & Hc). eauto.
+    + admit.
   - admit.
-  - admit.
-  - admit.
-  - admit.
-  - admit.
+  - (* MBcast *)
+    pq J I Epc; fin Epc Qud Qcd. all: try (intros; apply (Qbc t); left; reflexivity).
+  - (* MPublish *)
+    assert (Hsb : m_state (mm s) = SBroadcast) by (apply (Qbc t); right; reflexivity).
+    pq J I Epc; fin Epc Qud Qcd.
+    all: try (intros; apply Qscb; right; eexists; left; reflexivity).
+    all: try (intros a0 t0 H; inversion H; rewrite Hsb; simpl; lia).
+    all: try (intros a0 t0 H; inversion H; discriminate).
+    intros A _. apply Qearly; auto. rewrite Hsb. reflexivity.
   - admit.
 Admitted.
 
